@@ -19,6 +19,7 @@ mod p07;
 mod bcmodel;
 mod p09;
 mod p10;
+mod p13;
 mod refval;
 
 use fw::*;
@@ -33,6 +34,7 @@ fn make(id: &str, tier: Tier) -> Option<Box<dyn Property>> {
         "C06" => Box::new(p06::P06::new(tier)),
         "C10" => Box::new(p10::P10::new(tier)),
         "C07" => Box::new(p07::P07::new(tier)),
+        "C13" => Box::new(p13::P13::new(tier)),
         "C09" => Box::new(p09::P09::new(tier)),
         _ => return None,
     })
